@@ -3,7 +3,7 @@ From Coq Require Import Reals QArith Qround Sorting.Permutation PrimFloat.
 From Flocq Require Import Raux.
 From EsVerif.Common Require Import Base.
 From EsVerif.C13 Require Import Model Spec Proofs CountProofs ModelR LogBinProofs FloatModel FloatProofs Exec ExecProofs C05Tie ExecTie
-  LoopModel LoopProofs RootProofs MoreModel MoreProofs BinTie.
+  LoopModel LoopProofs RootProofs MoreModel MoreProofs BinTie MarginProofs.
 From EsVerif.C05 Require Spec.
 From EsVerif.C05 Require Model.
 
@@ -416,3 +416,23 @@ Example C13_bin_number_nonvacuous :
   let x := map (fun i => C05.Model.float_of_Z (i - 8796093022208)) ids2 in
   map (C05.Model.binnum x 0%float 1%float) [0; 1; 2]%Z = [0; 7; 0]%Z /\ map (bn ids2 8796093022208) [0; 1; 2]%Z = [0; 7; 0]%Z.
 Proof. vm_compute. split; reflexivity. Qed.
+
+(* ================================================================================================= *)
+(* Round 6                                                                                            *)
+(* ================================================================================================= *)
+(* the search cap of cbincount (ModelR.search_cos; the C expression is translated and proved equal to it on every run): its
+   margin only enlarges the cap -- the cosine handed to SpatialDomain is at most the cosine of the search angle itself *)
+Theorem C13_search_cap_contains_cap : forall (pad : R) (degrees : bool) (maxangle : R),
+  (0 <= pad)%R ->
+  let a := (if degrees then maxangle * D2R else maxangle)%R in
+  (0 <= a <= PI)%R ->
+  (search_cos pad degrees maxangle <= cos a)%R.
+Proof. exact search_cap_contains_cap. Qed.
+
+Theorem C13_search_cos_no_margin : forall (degrees : bool) (maxangle : R),
+  let a := (if degrees then maxangle * D2R else maxangle)%R in
+  (a <= PI)%R -> search_cos 0 degrees maxangle = cos a.
+Proof. exact search_cos_no_margin. Qed.
+
+Example C13_search_cap_nonvacuous : (0 <= 1 / 10000)%R /\ (0 <= 1 * D2R <= PI)%R.
+Proof. exact margin_example. Qed.
